@@ -74,6 +74,8 @@ template <class C> struct Runner {
     // makes the objects for one corpus text and visits them
     void run_text(const Str &t, const Str &only_how = "", int only_cap = -1000, int only_cw = -1) {
         std::basic_string<C> w = widen<C>(t), bt = widen<C>("s://u@h:1/a/b?bq"); const C *ep; Uri u, n, b, d, e; bool okb;
+        // more bases for the resolved / shortened objects: ones that share the authority (or the lack of one) with the shape product's URIs
+        static const char *MORE[] = { "s://h/x?bq", "s://h", "s:/a", "s:a/b", "S://[::1]:80/a/../b" };
         if (A::ParseSingleUriEx(&u, w.data(), w.data() + w.size(), &ep) != URI_SUCCESS) { ctx->harness_error("corpus text does not parse: " + t); return; }
         okb = A::ParseSingleUriEx(&b, bt.data(), bt.data() + bt.size(), &ep) == URI_SUCCESS;
         auto visit = [&](const char *kind, const Uri &x) { Str how = Str(kind) + ":" + t; if (only_how.empty() || only_how == how) object(how, x, only_cap, only_cw); };
@@ -89,6 +91,10 @@ template <class C> struct Runner {
         led.reset();
         if (okb && A::AddBaseUri(&d, &u, &b) == URI_SUCCESS) { visit("resolved", d); A::FreeUriMembers(&d); }
         if (okb && u.scheme.first && A::RemoveBaseUri(&e, &u, &b, URI_FALSE) == URI_SUCCESS) { visit("shortened", e); A::FreeUriMembers(&e); }
+        for (int bi = 0; bi < 5; bi++) { std::basic_string<C> mt = widen<C>(MORE[bi]); Uri mb, md, me; if (A::ParseSingleUriEx(&mb, mt.data(), mt.data() + mt.size(), &ep) != URI_SUCCESS) { A::FreeUriMembers(&mb); continue; }
+            if (A::AddBaseUri(&md, &u, &mb) == URI_SUCCESS) { visit(fmt("resolved%d", bi).c_str(), md); } A::FreeUriMembers(&md);
+            for (int dr = 0; dr < 2; dr++) { if (u.scheme.first && A::RemoveBaseUri(&me, &u, &mb, dr) == URI_SUCCESS) visit(fmt("shortened%d.%d", bi, dr).c_str(), me); A::FreeUriMembers(&me); }
+            A::FreeUriMembers(&mb); }
         A::FreeUriMembers(&u); if (okb) A::FreeUriMembers(&b);
     }
 };
